@@ -60,6 +60,14 @@ use crate::linalg::Matrix;
 use crate::linalg::{BaseMatrix, BaseVector};
 use crate::math::num::RealNumber;
 
+/// ndarray broadcasts an operand that has a dimension of size one; the other back ends reject
+/// operands of different shape, and so do these bindings.
+fn check_same_shape(a: &[usize], b: &[usize]) {
+    if a != b {
+        panic!("A and B should have the same shape: {:?} vs {:?}", a, b);
+    }
+}
+
 impl<T: RealNumber + ScalarOperand> BaseVector<T> for ArrayBase<OwnedRepr<T>, Ix1> {
     fn get(&self, i: usize) -> T {
         self[i]
@@ -150,21 +158,25 @@ impl<T: RealNumber + ScalarOperand> BaseVector<T> for ArrayBase<OwnedRepr<T>, Ix
     }
 
     fn add_mut(&mut self, other: &Self) -> &Self {
+        check_same_shape(self.shape(), other.shape());
         *self += other;
         self
     }
 
     fn sub_mut(&mut self, other: &Self) -> &Self {
+        check_same_shape(self.shape(), other.shape());
         *self -= other;
         self
     }
 
     fn mul_mut(&mut self, other: &Self) -> &Self {
+        check_same_shape(self.shape(), other.shape());
         *self *= other;
         self
     }
 
     fn div_mut(&mut self, other: &Self) -> &Self {
+        check_same_shape(self.shape(), other.shape());
         *self /= other;
         self
     }
@@ -183,6 +195,7 @@ impl<T: RealNumber + ScalarOperand> BaseVector<T> for ArrayBase<OwnedRepr<T>, Ix
     }
 
     fn copy_from(&mut self, other: &Self) {
+        check_same_shape(self.shape(), other.shape());
         self.assign(other);
     }
 }
@@ -290,21 +303,25 @@ impl<T: RealNumber + ScalarOperand + AddAssign + SubAssign + MulAssign + DivAssi
     }
 
     fn add_mut(&mut self, other: &Self) -> &Self {
+        check_same_shape(self.shape(), other.shape());
         *self += other;
         self
     }
 
     fn sub_mut(&mut self, other: &Self) -> &Self {
+        check_same_shape(self.shape(), other.shape());
         *self -= other;
         self
     }
 
     fn mul_mut(&mut self, other: &Self) -> &Self {
+        check_same_shape(self.shape(), other.shape());
         *self *= other;
         self
     }
 
     fn div_mut(&mut self, other: &Self) -> &Self {
+        check_same_shape(self.shape(), other.shape());
         *self /= other;
         self
     }
@@ -405,6 +422,7 @@ impl<T: RealNumber + ScalarOperand + AddAssign + SubAssign + MulAssign + DivAssi
     }
 
     fn copy_from(&mut self, other: &Self) {
+        check_same_shape(self.shape(), other.shape());
         self.assign(other);
     }
 
